@@ -40,6 +40,7 @@ type G struct {
 	i        int
 	sweep    bool
 	inDomain bool
+	dates    [][3]int // when non-empty: the next civil dates to hand out (dense date histories)
 }
 
 var serialPool = []uint32{1, 0xff, 0x100, 0x10000, 0x01000000, 0xffffffff, 405419896, 0x80000000, 0x7fffffff, 303986753}
@@ -103,6 +104,11 @@ func daysIn(y, m int) int {
 }
 
 func (g *G) ymd() (int, int, int) {
+	if len(g.dates) > 0 {
+		d := g.dates[0]
+		g.dates = g.dates[1:]
+		return d[0], d[1], d[2]
+	}
 	if g.r.Intn(3) == 0 {
 		d := dayPool[g.r.Intn(len(dayPool))]
 		return d[0], d[1], d[2]
@@ -123,7 +129,7 @@ func (g *G) ymd() (int, int, int) {
 // foreign location part of the time: the encoding must still be the value's own civil date -
 // and its abstract form. zeroOK: the zero 'no date' may be produced.
 func (g *G) date(zeroOK bool) (types.Date, M) {
-	if zeroOK && g.r.Intn(8) == 0 {
+	if zeroOK && len(g.dates) == 0 && g.r.Intn(8) == 0 {
 		return types.Date{}, M{"t": "zero"}
 	}
 	y, m, d := g.ymd()
